@@ -33,6 +33,11 @@ def generate(X):
         ("integer/src/div/divide_conquer.rs", "memory_requirement_exact", "divide_conquer"),
         ("integer/src/div/mod.rs", "memory_requirement_exact", "div"),
         ("integer/src/root.rs", "memory_requirement_sqrt_rem", "root"),
+        # C17 (round 5): scratch blocks of gcd_large / gcd_ext_large
+        ("integer/src/gcd/lehmer.rs", "memory_requirement_up_to", "lehmer"),
+        ("integer/src/gcd/lehmer.rs", "memory_requirement_ext_up_to", "lehmer"),
+        ("integer/src/gcd/mod.rs", "memory_requirement_exact", "gcd"),
+        ("integer/src/gcd/mod.rs", "memory_requirement_ext_exact", "gcd"),
     ]
     known = {}          # (module, fn) -> (lean name, number of params)
 
@@ -132,6 +137,9 @@ def generate(X):
                 if st[0] == "let" and st[1][0] == "pvar":
                     parts.append("let %s := %s;" % (X.ident(st[1][1]), self.nat(st[2])))
                     self.env.add(st[1][1])
+                elif st[0] == "let" and st[1][0] == "pwild" and st[2][0] == "path" and len(st[2][1]) == 1 \
+                        and st[2][1][0].lstrip("_") in self.env:
+                    pass                                    # `let _ = <parameter>;` (silences an unused parameter): no effect
                 else:
                     self.fail("statement `%s` outside the subset" % st[0])
             if b[2] is None:
@@ -285,5 +293,50 @@ def generate(X):
     out.append("/-- `pow_dword_base`: the scratch `MemoryAllocation` in words -/")
     out.append("def pow_dword_base_scratch_words (ceil_log2 : Nat → Nat) (exp : Nat) : Nat :=\n    %s\n" % scratch)
     info["Scratch.pow_dword_base"] = h
+    # ------------------------------------------------------------ gcd_large / gcd_ext_large (integer/src/gcd_ops.rs) — C17, round 5
+    rel = "integer/src/gcd_ops.rs"
+    src = X.read(rel)
+
+    def one_alloc(fn):
+        it = X.fn_item(src, fn, rel=rel)
+        body = strip_comments(it["body"])
+        check_word_layouts(body, rel + " `%s`" % fn)
+        flat = re.sub(r"\s+", " ", body)
+        p = flat.find("MemoryAllocation::new(")
+        if p < 0 or flat.find("MemoryAllocation::new(", p + 1) >= 0:
+            raise ExtractError("%s `%s`: expected exactly one MemoryAllocation::new(…)" % (rel, fn))
+        q = X.balanced(flat, p + len("MemoryAllocation::new"), "(", ")")
+        arg = flat[p + len("MemoryAllocation::new") + 1:q - 1]
+        arg = re.sub(r",\s*\)", ")", arg).strip().rstrip(",")
+        return it, flat, p, arg
+
+    what = rel + " `gcd_large`"
+    it, flat, p, arg = one_alloc("gcd_large")
+    tr = Tr(what, rel, "gcd_ops", [], mvars={("lhs", "len"): "lhs_len", ("rhs", "len"): "rhs_len"})
+    scratch = tr.nat(X.P(X.tokenize(arg)).expr())
+    h = sha(it["text"])
+    out.append("/-- `gcd_large`: the scratch `MemoryAllocation` in words (`lhs`, `rhs` after the ordering swap) — %s, sha1 %s -/" % (rel, h))
+    out.append("def gcd_large_scratch_words (ceil_log2 : Nat → Nat) (lhs_len rhs_len : Nat) : Nat :=\n    %s\n" % scratch)
+    info["Scratch.gcd_large"] = h
+    what = rel + " `gcd_ext_large`"
+    it, flat, p, arg = one_alloc("gcd_ext_large")
+    m = re.search(r"let \(lhs_len, rhs_len\) = \(lhs\.len\(\), rhs\.len\(\)\); "
+                  r"let clone_mem = ([^;]+); let gcd_mem = ([^;]+); let post_mem = ([^;]+); let mut allocation = MemoryAllocation::new\(", flat)
+    if not m or m.end() != p + len("MemoryAllocation::new("):
+        raise ExtractError("%s: `let (lhs_len, rhs_len) = …; let clone_mem = …; let gcd_mem = …; let post_mem = …; "
+                           "let mut allocation = MemoryAllocation::new(…)` changed shape" % what)
+    env = ["lhs_len", "rhs_len"]
+    lets = []
+    for name, txt in (("clone_mem", m.group(1)), ("gcd_mem", m.group(2)), ("post_mem", m.group(3))):
+        tr = Tr(what, rel, "gcd_ops", env)
+        txt = re.sub(r",\s*\)", ")", txt)
+        lets.append("let %s := %s;" % (name, tr.nat(X.P(X.tokenize(txt)).expr())))
+        env = env + [name]
+    tr = Tr(what, rel, "gcd_ops", env)
+    total = tr.nat(X.P(X.tokenize(arg)).expr())
+    h = sha(it["text"])
+    out.append("/-- `gcd_ext_large`: the scratch `MemoryAllocation` in words: `clone_mem`, `gcd_mem`, `post_mem` and their combination — %s, sha1 %s -/" % (rel, h))
+    out.append("def gcd_ext_large_scratch_words (ceil_log2 : Nat → Nat) (lhs_len rhs_len : Nat) : Nat :=\n    (%s %s)\n" % (" ".join(lets), total))
+    info["Scratch.gcd_ext_large"] = h
     out.append("end Dashu.Gen.Scratch")
     return "\n".join(out) + "\n", info
